@@ -13,7 +13,7 @@
 //  trace lines (recomputed by the Lean model Tmcg/Model/Cgjkr.lean):
 //   cgjkr.gen n t p q g h (STRONG WEAK DEV){n} => OUT{n}
 //       OUT = ret|[QUAL]|x_i|xprime_i|y|[QUAL of x_rvss]|[C_00..C_(n-1)t]     `-`: the party died,  `*`: masked
-//   cgjkr.refresh n t p q g h [SUB] (x_i xprime_i [C_..] STRONG WEAK DEV){n} => OUT{n}
+//   cgjkr.refresh n t p q g h [SUB] (x_i xprime_i [C_..] [QUAL] STRONG WEAK DEV){n} => OUT{n}
 //       (the state before the call is an input: what the real party held)
 //       OUT = ret|[QUAL]|x_i|xprime_i|[C_00..]     `.`: not in SUB, `-`: died, `*`: masked
 //   STRONG = the values of the party's tmcg_mpz_srandomm(.,q) draws in order, WEAK = the protocol level
@@ -608,9 +608,9 @@ static std::string run_case(const Case &c, double limit_s)
 			const KV *s0 = find(i, "gen"), *s = find(i, "ref"), *d = dead_in(i, "ref");
 			const KV *cs = s ? s : d;
 			bool dead_before = !s0 || (!s && !d && c.in_sub(i));
-			if (!c.in_sub(i)) { in += " 0 0 [] [] [] -"; out += " ."; prop += " P" + std::to_string(i) + ":."; continue; }
-			if (dead_before) { in += " 0 0 [] [] [] Z,0"; out += " -"; prop += " P" + std::to_string(i) + ":-"; continue; }
-			in += " " + get(s0, "x") + " " + get(s0, "xp") + " " + get(s0, "C") + " " + get(cs, "strong") + " " + get(cs, "weak") + " " + c.dev[ref_step][i].str();
+			if (!c.in_sub(i)) { in += " 0 0 [] [] [] [] -"; out += " ."; prop += " P" + std::to_string(i) + ":."; continue; }
+			if (dead_before) { in += " 0 0 [] [] [] [] Z,0"; out += " -"; prop += " P" + std::to_string(i) + ":-"; continue; }
+			in += " " + get(s0, "x") + " " + get(s0, "xp") + " " + get(s0, "C") + " " + get(s0, "QUAL") + " " + get(cs, "strong") + " " + get(cs, "weak") + " " + c.dev[ref_step][i].str();
 			if (!s) { out += " -"; prop += " P" + std::to_string(i) + ":-"; continue; }
 			std::string o = get(s, "ret") + "|" + get(s, "QUAL") + "|" + get(s, "x") + "|" + get(s, "xp") + "|" + get(s, "C");
 			out += c.dev[ref_step][i].patient() ? std::string(" *") : " " + o;
